@@ -190,6 +190,25 @@ def check_theorems(prop):
     return res
 
 
+def run_coqchk(prop, timeout=2400):
+    """thorough tier: re-check Properties/<prop>.vo and everything it depends on with the
+    independent checker; returns dict(ok, axioms, summary)"""
+    rc, out = sh(["timeout", str(timeout), "coqchk", "-silent", "-o", "-Q", "theories", "Lal", "Lal.Properties.%s" % prop],
+                 cwd=COQ, timeout=timeout + 60)
+    res = dict(ok=(rc == 0), rc=rc, axioms=[], summary=out[-1500:])
+    m = re.search(r"\* Axioms:(.*?)\n\s*\n\* Constants", out, re.S)
+    if m:
+        body = m.group(1).strip()
+        if body and body != "<none>":
+            res["axioms"] = [l.strip() for l in body.split("\n") if l.strip()]
+    for key in ("type-in-type", "unsafe (co)fixpoints", "positivity is assumed"):
+        mm = re.search(re.escape(key) + r":\s*(.*)", out)
+        if mm and mm.group(1).strip() != "<none>":
+            res["ok"] = False
+            res.setdefault("unsafe", []).append(key + ": " + mm.group(1).strip())
+    return res
+
+
 # ----------------------------------------------------------------------------
 # extraction + OCaml
 
@@ -327,6 +346,7 @@ def run_lines(exe, lines, full=False, timeout=1200, extra_env=None, mem_gb=24):
     start = 0
     n = len(lines)
     restarts = 0
+    timed_out_at = None
     while start < n:
         data = "\n".join(lines[start:]) + "\n"
 
@@ -343,13 +363,22 @@ def run_lines(exe, lines, full=False, timeout=1200, extra_env=None, mem_gb=24):
         except subprocess.TimeoutExpired:
             p.kill()
             so, se = p.communicate()
-            got = so.decode(errors="replace").split("\n")
-            if got and got[-1] == "":
-                got.pop()
+            text = so.decode(errors="replace")
+            got = text.split("\n")
+            # the last element is an incomplete line (or empty): never compare a cut-off line
+            got.pop()
+            got = [g for g in got if not re.match(r"^\d{4}/\d\d/\d\d ", g)]
             outs.extend(got)
-            outs.append("timeout")
-            start = len(outs)
             restarts += 1
+            if got:
+                # the batch as a whole ran out of time: go on with the case it stopped at
+                timed_out_at = None
+            else:
+                # no progress at all: the first case of this batch is the slow one
+                if timed_out_at == len(outs):
+                    outs.append("timeout")
+                timed_out_at = len(outs)
+            start = len(outs)
             if restarts > 200:
                 break
             continue
@@ -492,6 +521,21 @@ def main_check(mod, tier, seed, replay=None):
                trusted_base=trusted_base(thm), evaluations=0, distinct_nontrivial=0,
                rule=getattr(mod, "RULE", ""), samples=[], distribution={}, mismatches=0,
                oracle_evaluated=0, oracle_failed=0, known_findings_hit=[])
+
+    if tier == "thorough" and thm["failing"] is None and not os.environ.get("VERIF_NO_COQCHK"):
+        with Lock("coqchk"):
+            chk = run_coqchk(prop)
+        cov["coqchk"] = dict(ok=chk["ok"], rc=chk["rc"], axioms=chk["axioms"], unsafe=chk.get("unsafe", []))
+        cov["checker_cmd"] += " && coqchk -silent -o -Q theories Lal Lal.Properties.%s" % prop
+        if chk["axioms"]:
+            cov["trusted_base"] += ["coqchk axiom: " + a for a in chk["axioms"]]
+        else:
+            cov["trusted_base"].append("coqchk -o: no axioms, no type-in-type, no unsafe fixpoints, no assumed positivity in the whole dependency cone")
+        if not chk["ok"] and chk["rc"] != 124:
+            path = write_replay(prop, dict(property=prop, broken="coqchk rejects Properties/%s.vo or its dependencies" % prop, log=chk["summary"]))
+            violations.append(("proof", "coqchk failed", path, True))
+        elif chk["rc"] == 124:
+            notes.append("coqchk did not finish within its time limit; the coqc result stands")
 
     if ok_model and ok_probe:
         if replay:
